@@ -186,3 +186,62 @@ func (b *workItemIDs3D) Verify() {
 		}
 	}
 }
+
+
+// loadStoreVmcnt1 runs kernel k18 of the CU world on a real platform: every work-item loads in[gid] (never touched
+// by the device before: TLB, L1, L2 all miss), stores to out2[gid] (line and translation warmed by an earlier store
+// of the same kernel) and waits with s_waitcnt vmcnt(1) before it uses the loaded value: out[gid] = in[gid] + 3.
+// The memory hierarchy may be able to acknowledge the store first; the wait must still cover the load.
+type loadStoreVmcnt1 struct {
+	driver  *driver.Driver
+	context *driver.Context
+	gpus    []int
+	Items   int
+	useUM   bool
+
+	in, out, out2 []uint32
+}
+
+func newLoadStoreVmcnt1(d *driver.Driver, p map[string]int) *loadStoreVmcnt1 {
+	b := &loadStoreVmcnt1{driver: d, Items: def(p, "items", 4096)}
+	b.context = d.Init()
+	return b
+}
+
+func (b *loadStoreVmcnt1) SelectGPU(gpus []int) { b.gpus = gpus }
+func (b *loadStoreVmcnt1) SetUnifiedMemory()    { b.useUM = true }
+
+func (b *loadStoreVmcnt1) Run() {
+	b.driver.SelectGPU(b.context, b.gpus[len(b.gpus)-1])
+	alloc := func() driver.Ptr {
+		if b.useUM {
+			return b.driver.AllocateUnifiedMemory(b.context, uint64(4*b.Items))
+		}
+		return b.driver.AllocateMemory(b.context, uint64(4*b.Items))
+	}
+	in, out, out2 := alloc(), alloc(), alloc()
+	b.in = make([]uint32, b.Items)
+	for i := range b.in {
+		b.in[i] = uint32(i)*2246822519 + 12345
+	}
+	b.driver.MemCopyH2D(b.context, in, b.in)
+	b.driver.MemCopyH2D(b.context, out, make([]uint32, b.Items))
+	b.driver.MemCopyH2D(b.context, out2, make([]uint32, b.Items))
+	co := cuworld.DriverCodeObject(cuworld.LoadKernels("")["k18_cold_load_then_warm_store_wait_vmcnt1"], 64)
+	b.driver.LaunchKernel(b.context, co, [3]uint32{uint32(b.Items), 1, 1}, [3]uint16{64, 1, 1},
+		&scalarReuploadArgs{In: in, Out: out, Mask: 63, Out2: out2})
+	b.out, b.out2 = make([]uint32, b.Items), make([]uint32, b.Items)
+	b.driver.MemCopyD2H(b.context, b.out, out)
+	b.driver.MemCopyD2H(b.context, b.out2, out2)
+}
+
+func (b *loadStoreVmcnt1) Verify() {
+	for i := range b.out {
+		if b.out[i] != b.in[i]+3 {
+			log.Panicf("Mismatch at %d, expected %d (the loaded value + 3), but get %d", i, b.in[i]+3, b.out[i])
+		}
+		if b.out2[i] != uint32(i%64) {
+			log.Panicf("Mismatch in out2 at %d, expected %d, but get %d", i, i%64, b.out2[i])
+		}
+	}
+}
